@@ -71,20 +71,8 @@ try:
         meta['without_tail'] = {k: v['tail'] for k, v in without.items()}
 finally:
     sh(f'git -C /repo worktree remove --force {wt}'); shutil.rmtree(wt, ignore_errors=True)
-# run the checks against /repo with the patch applied
+# (fv verdicts are recorded separately by seeds_fv.py)
 if meta.get('confirmed'):
-    assert sh('git -C /repo status --porcelain').stdout.strip() == '', '/repo not clean'
-    sv = f'/tmp/cs/{sid}.verif'; shutil.rmtree(sv, ignore_errors=True); os.makedirs(sv); shutil.copy('/verif/known_findings.json', sv)
-    sh(f'git -C /repo apply {patch}', check=True)
-    try:
-        det = {}
-        for pr in [prop] + extra_props:
-            r = subprocess.run(['/verif/bin/fv', 'check', '-prop', pr, '-tier', 'quick'], env=dict(env, FV_VERIF=sv), capture_output=True, text=True)
-            viol = [l for l in r.stdout.splitlines() if l.startswith('  rule=')]
-            det[pr] = {'exit': r.returncode, 'violations': [v.strip()[:400] for v in viol][:8]}
-        meta['fv'] = det
-    finally:
-        sh('git -C /repo checkout -- .'); shutil.rmtree(sv, ignore_errors=True)
     dst = f'/verif/seeded/{sid}'
     shutil.rmtree(dst, ignore_errors=True); os.makedirs(dst)
     shutil.copy(patch, dst); shutil.copytree(os.path.join(src, 'demo'), os.path.join(dst, 'demo'))
